@@ -129,6 +129,7 @@ func rulePanic(w *World, r *Report, pkg *ssa.Package) {
 	enums := closedEnums(w, pkg)
 	constructed := constructedPathKinds(w, pkg)
 	nSites, nS1, nS2, nS3 := 0, 0, 0, 0
+	nInvoke := 0
 	entryF := newEntryFacts(w, enums)
 	for _, fn := range fns {
 		if fn.Synthetic != "" {
@@ -148,6 +149,7 @@ func rulePanic(w *World, r *Report, pkg *ssa.Package) {
 			return fmt.Sprintf("%s:%s#%d", fnName(fn), kind, ord[kind])
 		}
 		sortCB := isSortCallback(w, fn)
+		lessCB := sortSliceCallback(fn)
 		for _, b := range fn.Blocks {
 			for _, in := range b.Instrs {
 				switch x := in.(type) {
@@ -169,6 +171,8 @@ func rulePanic(w *World, r *Report, pkg *ssa.Package) {
 						r.Ok(rule, key, w.Pos(pos), "S1: the compiler's prove pass eliminated the bounds check")
 					case sortCB:
 						r.Ok(rule, key, w.Pos(pos), "S7: sort.Interface callback, sort passes indices in [0,Len())")
+					case lessCB != nil && indexesSortedSlice(in, fn, lessCB):
+						r.Ok(rule, key, w.Pos(pos), "S7: `less` callback of sort.Slice indexing the very slice being sorted with the indices sort passes in [0,len)")
 					default:
 						why, ok := indexSafe(getFacts(), in)
 						if ok {
@@ -208,6 +212,15 @@ func rulePanic(w *World, r *Report, pkg *ssa.Package) {
 						r.Check(ok && c != 0, rule, key, w.Pos(x.Pos()), "constant non-zero divisor", "unproved may-panic site: integer division by a value that may be zero")
 					}
 				case ssa.CallInstruction:
+					if x.Common().IsInvoke() {
+						nInvoke++
+						if why, src := nilReceiver(w, x.Common().Value, b); src {
+							nSites++
+							key := mk("nil-invoke")
+							r.Check(why == "", rule, key, w.Pos(x.Pos()), "S10: the zero value of a failed comma-ok lookup/assertion (or a nil constant) cannot reach this method call",
+								"unproved may-panic site: method call on an interface value that may be nil: "+why)
+						}
+					}
 					name := calleeFullName(x)
 					if why, bad := panickingExternals[name]; bad {
 						nSites++
@@ -218,6 +231,7 @@ func rulePanic(w *World, r *Report, pkg *ssa.Package) {
 			}
 		}
 	}
+	r.Note("R-PANIC: %d interface method calls examined for nil receivers (S10)", nInvoke)
 	r.Note("R-PANIC scope: %d functions of v2 reachable from %d entry points; %d may-panic sites (S1 compiler-proved %d, S2 guard facts %d, S3 range/len %d); compiler left %d bounds checks in the whole package", len(fns), len(entries), nSites, nS1, nS2, nS3, len(bce))
 	if nS1 < 40 {
 		infra("R-PANIC: only %d sites matched a compiler-proved position; the position mapping between go/ssa and the compiler report is broken", nS1)
@@ -415,8 +429,105 @@ func nonNegSize(fs *Facts, v ssa.Value, b *ssa.BasicBlock) (string, bool) {
 	if nonNeg(v, 0) {
 		return "constant, length, sum/product of lengths, or bounded below by a guard", true
 	}
+	if why, ok := internalCounter(v); ok {
+		return "S11: " + why, true
+	}
 	lo, _, _ := fs.bounds(v, b)
 	return "lower bound " + b64(lo), false
+}
+
+// internalCounter — schema S11. The size is built, by additions only, from
+// constants, lengths and counters the function keeps itself in local maps or
+// variables (every value stored into such a map is again of that kind): no
+// number controlled by the input text (a path index, a parsed number, an
+// integer parameter) reaches it. Whether such a tally can go negative is a
+// statement about the function's own bookkeeping (e.g. "counts were checked
+// to be non-negative in the loop before"), which this schema does not decide
+// — stated as an assumption; what it excludes is the input-controlled size,
+// which is what C13 is about.
+func internalCounter(v ssa.Value) (string, bool) {
+	seen := map[ssa.Value]bool{}
+	var ok func(v ssa.Value, depth int) bool
+	ok = func(v ssa.Value, depth int) bool {
+		if depth > 25 {
+			return false
+		}
+		v = stripInt(v)
+		if seen[v] {
+			return true
+		}
+		seen[v] = true
+		if _, isK := constInt(v); isK {
+			return true
+		}
+		if _, isLen := isBuiltinCall(v, "len"); isLen {
+			return true
+		}
+		if _, isCap := isBuiltinCall(v, "cap"); isCap {
+			return true
+		}
+		switch x := v.(type) {
+		case *ssa.Phi:
+			for _, e := range x.Edges {
+				if !ok(e, depth+1) {
+					return false
+				}
+			}
+			return true
+		case *ssa.BinOp:
+			if x.Op != token.ADD && x.Op != token.SUB {
+				return false
+			}
+			return ok(x.X, depth+1) && ok(x.Y, depth+1)
+		case *ssa.Extract:
+			if nx, isNext := x.Tuple.(*ssa.Next); isNext && x.Index == 2 {
+				if rg, isRg := nx.Iter.(*ssa.Range); isRg {
+					return localCounterMap(rg.X, ok, depth)
+				}
+			}
+			if lk, isLk := x.Tuple.(*ssa.Lookup); isLk && x.Index == 0 {
+				return localCounterMap(lk.X, ok, depth)
+			}
+		case *ssa.Lookup:
+			return localCounterMap(x.X, ok, depth)
+		}
+		return false
+	}
+	if _, isInt := v.Type().Underlying().(*types.Basic); !isInt {
+		return "", false
+	}
+	if ok(v, 0) {
+		return "the size is a tally of the function's own counters and lengths; no input-controlled number reaches it (that the tally is non-negative is assumed, not decided)", true
+	}
+	return "", false
+}
+
+// localCounterMap: m is a map made in this function whose stored values are all internal counters.
+func localCounterMap(m ssa.Value, ok func(ssa.Value, int) bool, depth int) bool {
+	mk, isMk := m.(*ssa.MakeMap)
+	if !isMk {
+		return false
+	}
+	if b, isB := mk.Type().Underlying().(*types.Map).Elem().Underlying().(*types.Basic); !isB || b.Info()&types.IsInteger == 0 {
+		return false
+	}
+	for _, ref := range *mk.Referrers() {
+		switch x := ref.(type) {
+		case *ssa.MapUpdate:
+			if x.Map == ssa.Value(mk) && !ok(x.Value, depth+1) {
+				return false
+			}
+		case *ssa.Lookup, *ssa.Range, *ssa.DebugRef:
+		case ssa.CallInstruction:
+			if b, isB := x.Common().Value.(*ssa.Builtin); isB && (b.Name() == "len" || b.Name() == "delete") {
+				continue
+			}
+			return false // handed to a function that may fill it
+		default:
+			return false
+		}
+	}
+	return true
 }
 
 // assertSafe: x.(T) without comma-ok where the operand is the result of a
@@ -541,8 +652,14 @@ func ruleFinite(w *World, r *Report, pkg *ssa.Package) {
 
 // ruleRawTypes: every raw() returns only the dynamic types both codecs render
 // faithfully and that read back as the same node type.
-func ruleRawTypes(w *World, r *Report, pkg *ssa.Package) {
-	nt := newNodeTypes(w, pkg, "v2")
+func ruleRawTypes(w *World, r *Report, pkg *ssa.Package) { ruleRawTypesTag(w, r, pkg, "v2") }
+
+func ruleRawTypesTag(w *World, r *Report, pkg *ssa.Package, tag string) {
+	nt := newNodeTypes(w, pkg, tag)
+	ruleName := "R-RAWTYPES"
+	if tag != "v2" {
+		ruleName += "(" + tag + ")"
+	}
 	safe := map[string]bool{"map[string]interface{}": true, "[]interface{}": true, "float64": true, "string": true, "bool": true,
 		"map[string]any": true, "[]any": true}
 	for _, t := range nt.names {
@@ -567,8 +684,8 @@ func ruleRawTypes(w *World, r *Report, pkg *ssa.Package) {
 				bad = valueName(v)
 			}
 		}
-		r.Check(bad == "", "R-RAWTYPES", fnName(fn), w.Pos(fn.Pos()), "raw() returns only map[string]interface{}, []interface{}, float64, string, bool or nil",
-			"raw() may return "+bad+", which json/yaml.Marshal can fail on: the renderers panic on a marshal error")
+		r.Check(bad == "", ruleName, fnName(fn), w.Pos(fn.Pos()), "raw() returns only map[string]interface{}, []interface{}, float64, string, bool or nil",
+			"raw() may return "+bad+": json/yaml.Marshal can fail on it (the renderers panic on a marshal error) or encode it differently from the value the node holds (an integer conversion overflows beyond 2^63), so rendered text no longer reads back as the same document")
 	}
 }
 
@@ -626,4 +743,234 @@ func ruleFiniteOnly(w *World, r *Report, pkg *ssa.Package) {
 	if n == 0 {
 		r.Bad("R-FINITE", "v2.NewJsonNode:float->jsonNumber", w.Pos(fn.Pos()), "no float64 to jsonNumber conversion found in NewJsonNode: the anchor of the lemma is gone")
 	}
+}
+
+// nilReceiver — schema S10. The receiver of an interface method call is
+// traced back through phis. A source is "nil-capable" when the program itself
+// knows the value can be absent: the value result of a comma-ok map lookup or
+// comma-ok type assertion (zero when ok is false), or a nil constant.
+// Returns src=true if such a source exists; why != "" if it can reach the call
+// without passing the ok-true edge (or a != nil test).
+func nilReceiver(w *World, recv ssa.Value, at *ssa.BasicBlock) (why string, src bool) {
+	fn := at.Parent()
+	okTrueEdges := func(ex *ssa.Extract) []Edge {
+		var out []Edge
+		for _, ref := range *ex.Tuple.Referrers() {
+			okv, isEx := ref.(*ssa.Extract)
+			if !isEx || okv.Index != 1 {
+				continue
+			}
+			for _, b := range fn.Blocks {
+				cond, tE, fE, okb := branchEdges(b)
+				if !okb {
+					continue
+				}
+				neg := false
+				c := cond
+				for {
+					u, isU := c.(*ssa.UnOp)
+					if !isU || u.Op != token.NOT {
+						break
+					}
+					c = u.X
+					neg = !neg
+				}
+				if c == ssa.Value(okv) {
+					if neg {
+						out = append(out, fE)
+					} else {
+						out = append(out, tE)
+					}
+				}
+			}
+		}
+		return out
+	}
+	nonNilEdges := func(v ssa.Value) []Edge {
+		var out []Edge
+		for _, b := range fn.Blocks {
+			cond, tE, fE, okb := branchEdges(b)
+			if !okb {
+				continue
+			}
+			bo, isB := cond.(*ssa.BinOp)
+			if !isB || (bo.Op != token.NEQ && bo.Op != token.EQL) {
+				continue
+			}
+			var other ssa.Value
+			if bo.X == v {
+				other = bo.Y
+			} else if bo.Y == v {
+				other = bo.X
+			} else {
+				continue
+			}
+			if k, isK := other.(*ssa.Const); isK && k.IsNil() {
+				if bo.Op == token.NEQ {
+					out = append(out, tE)
+				} else {
+					out = append(out, fE)
+				}
+			}
+		}
+		return out
+	}
+	// guarded: block b (or the edge pred->b) lies behind one of the edges
+	guarded := func(edges []Edge, b, into *ssa.BasicBlock) bool {
+		for _, e := range edges {
+			if (into != nil && e.From == b && e.To() == into) || edgeDominates(e, b) {
+				return true
+			}
+		}
+		return false
+	}
+	seen := map[ssa.Value]bool{}
+	var walk func(v ssa.Value, use, into *ssa.BasicBlock, depth int)
+	walk = func(v ssa.Value, use, into *ssa.BasicBlock, depth int) {
+		if depth > 8 || why != "" {
+			return
+		}
+		switch x := v.(type) {
+		case *ssa.Const:
+			if x.IsNil() {
+				src = true
+				why = "a nil constant reaches the receiver"
+			}
+		case *ssa.Extract:
+			if x.Index != 0 {
+				return
+			}
+			commaOk := false
+			switch t := x.Tuple.(type) {
+			case *ssa.Lookup:
+				commaOk = t.CommaOk
+			case *ssa.TypeAssert:
+				commaOk = t.CommaOk
+			}
+			if !commaOk {
+				return
+			}
+			src = true
+			if guarded(okTrueEdges(x), use, into) || guarded(nonNilEdges(x), use, into) {
+				return
+			}
+			why = "the value of the comma-ok expression at " + w.Pos(x.Tuple.Pos()) + " is used on a path where ok is false (zero value, a nil interface)"
+		case *ssa.Phi:
+			if seen[x] {
+				return
+			}
+			seen[x] = true
+			if guarded(nonNilEdges(x), use, into) {
+				return
+			}
+			for i, e := range x.Edges {
+				walk(e, x.Block().Preds[i], x.Block(), depth+1)
+			}
+		case *ssa.ChangeInterface:
+			walk(x.X, use, into, depth+1)
+		}
+	}
+	walk(recv, at, nil, 0)
+	return why, src
+}
+
+// sortSliceCallback: fn is a function literal passed as the `less` argument of
+// sort.Slice / sort.SliceStable; returns that call.
+func sortSliceCallback(fn *ssa.Function) *ssa.Call {
+	if fn.Parent() == nil || fn.Referrers() == nil {
+		return nil
+	}
+	var found *ssa.Call
+	n := 0
+	for _, ref := range *fn.Referrers() {
+		mc, ok := ref.(*ssa.MakeClosure)
+		if !ok {
+			return nil
+		}
+		for _, r2 := range *mc.Referrers() {
+			n++
+			c, ok := r2.(*ssa.Call)
+			if !ok {
+				return nil
+			}
+			switch calleeFullName(c) {
+			case "sort.Slice", "sort.SliceStable":
+				if len(c.Call.Args) == 2 && c.Call.Args[1] == ssa.Value(mc) {
+					found = c
+					continue
+				}
+			}
+			return nil
+		}
+	}
+	if n != 1 {
+		return nil
+	}
+	return found
+}
+
+// indexesSortedSlice: the instruction indexes, with one of fn's own
+// parameters, the slice variable that is the first argument of the sort call.
+func indexesSortedSlice(in ssa.Instruction, fn *ssa.Function, sortCall *ssa.Call) bool {
+	var base, idx ssa.Value
+	switch x := in.(type) {
+	case *ssa.IndexAddr:
+		base, idx = x.X, x.Index
+	case *ssa.Index:
+		base, idx = x.X, x.Index
+	default:
+		return false
+	}
+	isParam := false
+	for _, p := range fn.Params {
+		if strip(idx) == ssa.Value(p) {
+			isParam = true
+		}
+	}
+	if !isParam {
+		return false
+	}
+	// the sorted value in the parent: load of a cell (captured variable) or a plain value
+	sorted := strip(sortCall.Call.Args[0])
+	var sortedCell ssa.Value
+	if ld, ok := sorted.(*ssa.UnOp); ok && ld.Op == token.MUL {
+		sortedCell = ld.X
+	}
+	// the base in the closure: load of a free variable bound to that cell, or a free variable bound to the value
+	var fv *ssa.FreeVar
+	viaLoad := false
+	switch b := strip(base).(type) {
+	case *ssa.UnOp:
+		if b.Op == token.MUL {
+			fv, _ = b.X.(*ssa.FreeVar)
+			viaLoad = true
+		}
+	case *ssa.FreeVar:
+		fv = b
+	}
+	if fv == nil {
+		return false
+	}
+	for _, ref := range *fn.Referrers() {
+		mc := ref.(*ssa.MakeClosure)
+		for i, f := range fn.FreeVars {
+			if f != fv || i >= len(mc.Bindings) {
+				continue
+			}
+			if viaLoad && sortedCell != nil && mc.Bindings[i] == sortedCell {
+				// the cell must not be re-assigned between the sort call's load and the callback: stores to it inside the closure are excluded
+				reassigned := false
+				allInstrs(fn, func(i2 ssa.Instruction) {
+					if st, ok := i2.(*ssa.Store); ok && st.Addr == ssa.Value(fv) {
+						reassigned = true
+					}
+				})
+				return !reassigned
+			}
+			if !viaLoad && strip(mc.Bindings[i]) == sorted {
+				return true
+			}
+		}
+	}
+	return false
 }
